@@ -248,7 +248,7 @@ func main() {
 		"source/destination address types; paths up to 64 hops; sizes up to the buffer), (2) the same with exactly one " +
 		"flaw per router check (23 flaws -> every SCMP error the router can emit) x offender payload kinds incl. every SCMP class, " +
 		"(3) single-field corruptions, (4) every truncation offset, (5) length-field lies (HdrLen, slack, PayloadLen, SegLen, " +
-		"ExtLen, option length, address length), (6) random bytes incl. STUN requests/cookies; each on internal, sibling " +
+		"ExtLen, option length, address length), (6) random bytes incl. STUN requests/cookies/attribute chains and a deterministic sweep of structured STUN messages (every attribute-length residue, every cut inside the last attribute and its padding, honest/lying message length); each on internal, sibling " +
 		"(connected and detached) and external links, 4 data planes (SCMP authentication on/off, IPv4/IPv6 router address). " +
 		"Every datagram goes link.receive -> computeProcID -> processPkt -> slow path as in the router. " +
 		"non-trivial = reached the fast path and was not discarded (or STUN reply); distinct by (data plane, link, bytes)"
@@ -422,6 +422,17 @@ func main() {
 		}
 	}
 
+	// (6a) structured STUN: every attribute-length residue, every cut inside the last attribute and
+	// inside its padding, honest and lying message length — on the internal link of every data
+	// plane and once on an external and a sibling link
+	for i, m := range stunSweep(r) {
+		dv := en.dvs[i%len(en.dvs)]
+		en.feed(dv, m.raw, 0, 512, nil, "stun", m.what, false, false)
+		if i%9 == 0 {
+			en.feed(dv, m.raw, []uint16{1, 11, 12, 5}[(i/9)%4], 512, nil, "stun", m.what, false, false)
+		}
+		en.stunOp(m.raw)
+	}
 	// (6) random bytes incl. STUN
 	nRand := e.N(40000, 400000)
 	links := []uint16{0, 0, 0, 1, 2, 5, 11, 12}
@@ -431,32 +442,7 @@ func main() {
 		dv := en.pickDP()
 		en.feed(dv, raw, link, 512, nil, "random", what, false, false)
 		if strings.HasPrefix(what, "stun") || (i%16 == 0 && len(raw) <= 200) {
-			ans := ""
-			var err error
-			if pn, okp := vlib.Safe(func() string { _, err = stun.ParseBindingRequest(raw); return "" }); !okp {
-				err = errors.New(pn)
-				ans = "PANIC"
-			}
-			switch {
-			case ans == "PANIC":
-			case err == nil || errors.Is(err, stun.ErrWrongFingerprint):
-				ans = fmt.Sprintf("crc %d", len(raw)-8)
-			case errors.Is(err, stun.ErrNotSTUN):
-				ans = "notstun"
-			case errors.Is(err, stun.ErrNotBindingRequest):
-				ans = "notbinding"
-			case errors.Is(err, stun.ErrMalformedAttrs):
-				ans = "malformed"
-			case errors.Is(err, stun.ErrNoFingerprint):
-				ans = "nofp"
-			default:
-				ans = "other-error"
-			}
-			tg := "stun/" + strings.Fields(ans)[0]
-			if ans == "notstun" {
-				tg = "~stun/notstun"
-			}
-			e.Op("stun "+vlib.Hex(raw), ans, tg)
+			en.stunOp(raw)
 		}
 		if i%4 == 0 && len(raw) <= 120 {
 			seed := udpip.VerifScmpLinkSeed(dv.v.Link(link))
@@ -472,6 +458,36 @@ func main() {
 		}
 	}
 	en.finish()
+}
+
+// stunOp compares the real STUN parser's decision with the model's.
+func (en *engine) stunOp(raw []byte) {
+	ans := ""
+	var err error
+	if pn, okp := vlib.Safe(func() string { _, err = stun.ParseBindingRequest(raw); return "" }); !okp {
+		err = errors.New(pn)
+		ans = "PANIC"
+	}
+	switch {
+	case ans == "PANIC":
+	case err == nil || errors.Is(err, stun.ErrWrongFingerprint):
+		ans = fmt.Sprintf("crc %d", len(raw)-8)
+	case errors.Is(err, stun.ErrNotSTUN):
+		ans = "notstun"
+	case errors.Is(err, stun.ErrNotBindingRequest):
+		ans = "notbinding"
+	case errors.Is(err, stun.ErrMalformedAttrs):
+		ans = "malformed"
+	case errors.Is(err, stun.ErrNoFingerprint):
+		ans = "nofp"
+	default:
+		ans = "other-error"
+	}
+	tg := "stun/" + strings.Fields(ans)[0]
+	if ans == "notstun" {
+		tg = "~stun/notstun"
+	}
+	en.e.Op("stun "+vlib.Hex(raw), ans, tg)
 }
 
 // tables ties the finite tables of the model exhaustively.
